@@ -541,3 +541,158 @@ def model_eval(tier, seed):
 
 
 CHECKS["model_eval"] = model_eval
+
+
+# ---------------------------------------------------------------------------
+# C05: substitution vs independent recursive definitions and the substitution lemma
+# ---------------------------------------------------------------------------
+def ref_rebuild(m, n, kids):
+    """operator of n applied to kids (through the public constructors)"""
+    nt = n.node_type()
+    if not n.args() and nt not in (op.FORALL, op.EXISTS):
+        return n
+    if nt in (op.FORALL, op.EXISTS):
+        return (m.ForAll if nt == op.FORALL else m.Exists)(n.quantifier_vars(), kids[0])
+    if nt == op.FUNCTION:
+        return m.Function(n.function_name(), kids)
+    if nt == op.BV_EXTRACT:
+        return m.BVExtract(kids[0], n.bv_extract_start(), n.bv_extract_end())
+    if nt in (op.BV_ROL, op.BV_ROR):
+        return (m.BVRol if nt == op.BV_ROL else m.BVRor)(kids[0], n.bv_rotation_step())
+    if nt in (op.BV_ZEXT, op.BV_SEXT):
+        return (m.BVZExt if nt == op.BV_ZEXT else m.BVSExt)(kids[0], n.bv_extend_step())
+    if nt == op.ARRAY_VALUE:
+        return m.Array(n.array_value_index_type(), kids[0], dict(zip(kids[1::2], kids[2::2])))
+    names = {op.AND: "And", op.OR: "Or", op.NOT: "Not", op.IMPLIES: "Implies", op.IFF: "Iff", op.PLUS: "Plus", op.MINUS: "Minus",
+             op.TIMES: "Times", op.DIV: "Div", op.LE: "LE", op.LT: "LT", op.EQUALS: "Equals", op.ITE: "Ite", op.TOREAL: "ToReal",
+             op.BV_NOT: "BVNot", op.BV_AND: "BVAnd", op.BV_OR: "BVOr", op.BV_XOR: "BVXor", op.BV_CONCAT: "BVConcat",
+             op.BV_ULT: "BVULT", op.BV_ULE: "BVULE", op.BV_NEG: "BVNeg", op.BV_ADD: "BVAdd", op.BV_SUB: "BVSub", op.BV_MUL: "BVMul",
+             op.BV_UDIV: "BVUDiv", op.BV_UREM: "BVURem", op.BV_LSHL: "BVLShl", op.BV_LSHR: "BVLShr", op.BV_SLT: "BVSLT",
+             op.BV_SLE: "BVSLE", op.BV_COMP: "BVComp", op.BV_SDIV: "BVSDiv", op.BV_SREM: "BVSRem", op.BV_ASHR: "BVAShr",
+             op.STR_LENGTH: "StrLength", op.STR_CONCAT: "StrConcat", op.STR_CONTAINS: "StrContains", op.STR_INDEXOF: "StrIndexOf",
+             op.STR_REPLACE: "StrReplace", op.STR_SUBSTR: "StrSubstr", op.STR_PREFIXOF: "StrPrefixOf",
+             op.STR_SUFFIXOF: "StrSuffixOf", op.STR_TO_INT: "StrToInt", op.INT_TO_STR: "IntToStr", op.STR_CHARAT: "StrCharAt",
+             op.ARRAY_SELECT: "Select", op.ARRAY_STORE: "Store", op.POW: "Pow", op.BV_TONATURAL: "BVToNatural"}
+    f = getattr(m, names[nt])
+    if nt in (op.AND, op.OR, op.PLUS, op.TIMES, op.STR_CONCAT, op.BV_CONCAT):
+        return f(list(kids))
+    return f(*kids)
+
+
+def ref_subst(m, n, sigma, mgs):
+    """documented most-general / most-specific replacement (recursive definition)"""
+    if mgs and n in sigma and n.node_type() not in ():
+        return sigma[n]
+    nt = n.node_type()
+    if nt in (op.FORALL, op.EXISTS):
+        qv = set(n.quantifier_vars())
+        inner = {k: v for k, v in sigma.items() if not (refeval.free_symbols(k) & qv)}
+        r = ref_rebuild(m, n, [ref_subst(m, n.arg(0), inner, mgs)])
+    else:
+        r = ref_rebuild(m, n, [ref_subst(m, c, sigma, mgs) for c in n.args()])
+    if not mgs and r in sigma:
+        return sigma[r]
+    return r
+
+
+def substitution_check(tier, seed):
+    from pysmt.substituter import MGSubstituter, MSSubstituter
+    env = fresh_env()
+    m = env.formula_manager
+    g = Gen(env, seed=seed, consts_bias=0.3)
+    rng = random.Random(seed)
+    trials = 1200 if tier == "quick" else 12000
+    n = nontriv = 0
+    viol, samples = [], []
+
+    def subterms(f):
+        out, st, seen = [], [f], set()
+        while st:
+            x = st.pop()
+            if x in seen:
+                continue
+            seen.add(x)
+            out.append(x)
+            st.extend(x.args())
+        return out
+    for t in range(trials):
+        try:
+            f = g.term(BOOL, rng.randint(1, 3))
+            if rng.random() < 0.5:
+                syms = [s for s in refeval.free_symbols(f) if not s.symbol_type().is_function_type()
+                        and not s.symbol_type().is_array_type()]
+                if syms:
+                    qs = rng.sample(syms, min(len(syms), rng.randint(1, 2)))
+                    f = (m.ForAll if rng.random() < 0.5 else m.Exists)(qs, f)
+                    f = m.And(f, g.term(BOOL, 1)) if rng.random() < 0.5 else f
+        except Exception:
+            continue
+        subs_pool = [x for x in subterms(f) if not (x.is_symbol() and x.symbol_type().is_function_type())]
+        sigma = {}
+        for _ in range(rng.randint(1, 2)):
+            k = rng.choice(subs_pool)
+            try:
+                sigma[k] = g.term(k.get_type(), rng.randint(0, 1))
+            except Exception:
+                pass
+        if not sigma:
+            continue
+        n += 1
+        if any(x.is_quantifier() for x in subterms(f)):
+            nontriv += 1
+        for mgs, cls in ((True, MGSubstituter), (False, MSSubstituter)):
+            try:
+                want = ref_subst(m, f, sigma, mgs)
+            except Exception:
+                want = None          # the replacement itself is ill-formed (e.g. non-constant array key)
+            try:
+                got = cls(env).substitute(f, sigma)
+            except Exception as e:
+                if want is None:
+                    continue
+                viol.append({"key": "substitute-exception", "formula": f.serialize(), "map": {str(k): str(v) for k, v in sigma.items()},
+                             "error": repr(e)[:200]})
+                break
+            if want is None:
+                continue
+            if got is not want:
+                viol.append({"key": "mgs" if mgs else "mss", "formula": f.serialize(), "map": {str(k): str(v) for k, v in sigma.items()},
+                             "got": got.serialize(), "expected": want.serialize()})
+                break
+        if viol:
+            break
+        # substitution lemma: symbol keys, no capture
+        sym_sigma = {k: v for k, v in sigma.items() if k.is_symbol()}
+        bound = set()
+        for x in subterms(f):
+            if x.is_quantifier():
+                bound |= set(x.quantifier_vars())
+        if sym_sigma and not any(refeval.free_symbols(v) & bound for v in sym_sigma.values()) and not (set(sym_sigma) & bound):
+            got = MGSubstituter(env).substitute(f, sym_sigma)
+            for _ in range(4):
+                I = refeval.Interp(rng=random.Random(rng.random()))
+                try:
+                    vals = {k: refeval.evaluate(v, I) for k, v in sym_sigma.items()}
+                    lhs = refeval.evaluate(got, I)
+                    I2 = refeval.Interp(values=dict(I.values), rng=random.Random(1))
+                    I2._uf = I._uf
+                    I2.values.update(vals)
+                    rhs = refeval.evaluate(f, I2)
+                except (refeval.DivByZero, refeval.Unsupported):
+                    continue
+                if lhs != rhs:
+                    viol.append({"key": "substitution-lemma", "formula": f.serialize(), "map": {str(k): str(v) for k, v in sym_sigma.items()},
+                                 "value_of_result": repr(lhs), "value_under_updated_interpretation": repr(rhs)})
+                    break
+        if viol:
+            break
+        if len(samples) < 3 and f.is_quantifier():
+            samples.append({"formula": f.serialize(), "map": {str(k): str(v) for k, v in sigma.items()}})
+    return {"name": "substitution", "bounded": True, "evaluations": n, "distinct_nontrivial": nontriv,
+            "rule": "%d generated formulas (half of them with a quantifier over their own symbols) x maps from 1-2 of their "
+                    "sub-terms; MGS and MSS compared by object identity with an independent recursive definition, and the "
+                    "substitution lemma checked on the reference evaluator for capture-free symbol maps; non-trivial = has a quantifier" % trials,
+            "samples": samples, "violations": viol}
+
+
+CHECKS["substitution"] = substitution_check
